@@ -264,7 +264,7 @@ func (sim *Simulation) exitCheck(next stateFn) (stateFn, error) {
 		reason = model.TerminationReason_BATTLE_LOSS
 	case len(sim.enemies) == 0:
 		reason = model.TerminationReason_BATTLE_WIN
-	case int(sim.Turn.TotalAV()/100) >= int(sim.cfg.Settings.CycleLimit):
+	case int(sim.Turn.TotalAV()/100) >= int(sim.cfg.GetSettings().GetCycleLimit()):
 		reason = model.TerminationReason_TIMEOUT
 	}
 
